@@ -15,10 +15,18 @@
    `leak` models state leaking from earlier calls (a mutable default / module global): it may change between
    calls but a deterministic API never reads it (ReadsLeak = FALSE).
 
+   A third place: the caller keeps ONE parsed object (an ast.FunctionDef) and converts it several times (what gen / sync-like drivers
+   do).  A conversion builds an IR from the object; emitting a class REWRITES the body statements the IR holds (names of parameters
+   become `self.<name>`).
+       Aliases = FALSE   the IR owns a private copy of the body: the caller's object stays pristine      (the code as it is: deepcopy)
+       Aliases = TRUE    the IR shares the statements with the caller's object: a class emission rewrites the caller's own AST, and
+                         every later conversion of that object reads the rewritten body
+   `obj[p]` is the state of the object the caller of process p keeps.
+
    Functional: equal (api, input) => equal output, across processes, seeds and histories.                      *)
 EXTENDS Naturals, Sequences, FiniteSets, TLC, Json
 
-CONSTANTS MaxSig, MaxCalls, OrderedMerge, ReadsLeak, OrderedScan
+CONSTANTS MaxSig, MaxCalls, OrderedMerge, ReadsLeak, OrderedScan, Aliases
 
 Seeds == {1, 2}
 Procs == {"A", "B"}
@@ -47,19 +55,32 @@ Out(x, seed, leak) ==
       winner == IF cands = {} THEN <<>> ELSE <<100 + (IF OrderedScan THEN Head(Asc(cands)) ELSE Head(SetOrder(seed, cands)))>>
   IN x.doc \o merged \o winner \o (IF ReadsLeak /\ leak > 0 THEN <<0>> ELSE <<>>)
 
-VARIABLES seed, leak, calls
-vars == <<seed, leak, calls>>
+\* conversions of the kept object: the record has the shape of the other inputs (n = 0 tells them apart) plus the target
+SharedInputs == {[n |-> 0, doc |-> <<>>, phr |-> <<t>>] : t \in {1, 2}}           \* phr = <<1>>: to a function   <<2>>: to a class
+ToClass(x) == x.phr = <<2>>
+\* what a conversion of the kept object returns, given the state in which the parser finds the body
+OutShared(x, body) == <<200 + x.phr[1]>> \o (IF ~ToClass(x) /\ body = "rewritten" THEN <<300>> ELSE <<>>)
+
+VARIABLES seed, leak, calls, obj
+vars == <<seed, leak, calls, obj>>
 
 Init == /\ seed \in [Procs -> Seeds]
         /\ leak = [p \in Procs |-> 0]
         /\ calls = [p \in Procs |-> <<>>]
+        /\ obj = [p \in Procs |-> "pristine"]
 
 Call(p, x) == /\ Len(calls[p]) < MaxCalls
               /\ calls' = [calls EXCEPT ![p] = Append(@, [input |-> x, out |-> Out(x, seed[p], leak[p])])]
               /\ leak' = [leak EXCEPT ![p] = @ + 1]           \* every call may leave state behind
-              /\ UNCHANGED seed
+              /\ UNCHANGED <<seed, obj>>
+CallShared(p, x) == /\ Len(calls[p]) < MaxCalls
+                    /\ calls' = [calls EXCEPT ![p] = Append(@, [input |-> x, out |-> OutShared(x, obj[p])])]
+                    /\ obj' = [obj EXCEPT ![p] = IF Aliases /\ ToClass(x) THEN "rewritten" ELSE @]
+                    /\ leak' = [leak EXCEPT ![p] = @ + 1]
+                    /\ UNCHANGED seed
 
-Next == \E p \in Procs, x \in InputsOK : Call(p, x)
+Next == \/ \E p \in Procs, x \in InputsOK : Call(p, x)
+        \/ \E p \in Procs, x \in SharedInputs : CallShared(p, x)
 Spec == Init /\ [][Next]_vars
 
 Functional == \A p, q \in Procs : \A a \in 1..Len(calls[p]), b \in 1..Len(calls[q]) :
@@ -67,6 +88,9 @@ Functional == \A p, q \in Procs : \A a \in 1..Len(calls[p]), b \in 1..Len(calls[
 \* every signature parameter appears exactly once (C14's SigCovered, checked here because the merge produces it)
 Covered == \A p \in Procs : \A a \in 1..Len(calls[p]) :
               LET c == calls[p][a] names == SelectSeq(c.out, LAMBDA v : v < 100) IN Len(names) = c.input.n /\ Range(names) = 1..c.input.n
+
+\* what the caller handed in is still what the caller holds
+CallerObjectUntouched == \A p \in Procs : obj[p] = "pristine"
 
 Stop == calls["A"] = <<>> /\ calls["B"] = <<>>
 \* the inputs themselves are dumped once (from the initial states' point of view they are constants)
